@@ -33,7 +33,8 @@ def plan(prop, tier, seed, t0):
         # --api: RandomPauliGadgetCircuitBuilder::weight, every builder without .seed() / straight from Default (audit #22)
         dict(name="circuits", engine="gen", args=["--gens", "random_circuit,pauli_gadget,surface_code", "--seeds", 4 if q else 40,
                                                    "--api", 2 if q else 12] + th, **T),
-        dict(name="hidden_shift", engine="gen", args=["--gens", "hidden_shift", "--seeds", 12 if q else 100] + th, **T),
+        # --hs-many: events of probability 2^-qubits (all-zero shift string, seed C19_e) need hundreds of instances of the cheapest settings
+        dict(name="hidden_shift", engine="gen", args=["--gens", "hidden_shift", "--seeds", 12 if q else 100, "--hs-many", 400 if q else 3000] + th, **T),
         dict(name="stab_state", engine="gen", args=["--gens", "stab_state", "--seeds", 12 if q else 100] + th, **T),
     ]
     return run_plan(prop, tier, seed, t0, mcs, traces, "exploration", COMMON_ASSUME + [
